@@ -84,3 +84,13 @@ Proof. exact tie_publish_ok. Qed.
 Theorem C14_source_tie_publish_names : forall fexp c pairs ws,
   final_task fexp c pairs = Some ws -> map fst ws = pub_dsts (GMrDel.final_publish (m_save_centroids c)).
 Proof. exact tie_publish_names. Qed.
+
+(* with several worker processes the file actions performed when one of them fails are not a
+   prefix of the sequential order: after ANY sub-collection of the failing run's writes, in any
+   order, there is still no final file *)
+Theorem C14_failed_run_no_final_any_subset : forall fexp c files d0 ws',
+  dir_wf d0 -> run_multiround fexp c files d0 = None ->
+  incl ws' (mr_writes_partial fexp c files) ->
+  let d := dir_puts (dir_remove d0 is_purged) ws' in
+  dir_get d "clusters.pkl" = None /\ dir_get d "cluster-centroids-packed.pkl" = None.
+Proof. exact failed_run_no_final_subset. Qed.
